@@ -31,11 +31,13 @@ OPEN_STATEMENTS = [
     'restrict_is_projection: the index part is proved at the matrix level for the particle number '
     '(number_indices_matrix_sector: the listed matrix indices are exactly the eigenvalue-k basis states, through the bit '
     'reversal); that numpy.ix_ extracts those rows / columns in list order is the indexing contract (restrict stream)',
-    'iterate_basis_spec with spin_preserving=True (the alpha / beta split): not proved; the unrestricted enumeration is '
-    '(iterate_basis_spec_nospin) and the reference comes first for both flags',
-    'number_preserving matrix = compression of the operator to the determinant basis and totality (no exception on admissible '
-    'input): only the sign / target loop (build_term_op_sound) is proved; the lookup (argsort / searchsorted) is covered by the '
-    'number-preserving stream',
+    'iterate_basis_spec is proved for both flags (iterate_basis_spec_nospin, iterate_basis_spec_spin; the spin version is stated '
+    'through vacated / filled alpha and beta orbitals, not through countTrue of the even / odd sublists)',
+    'number_preserving_sparse_operator_sound (matrix = compression of the operator to the determinant basis) as one statement: '
+    'not assembled; its ingredients are proved: the basis enumeration for both flags (iterate_basis_spec_*), injectivity of the '
+    'integer encoding (encode_det_injective), the lookup = membership in the basis with the position (lookup_sound), the sign / '
+    'target loop = Spec action (build_term_op_sound); the occupied / unoccupied pre-filter for normal-ordered terms and the '
+    'summation over terms are covered by the number-preserving stream (every entry against Spec.melF)',
     'expectation_cbs_list_sound: expectation value = <s|F|s> for normal-ordered operators with at most two-body terms: proved '
     'are the agreement of the vector and list conventions (expectation_vector_is_list) and the Spec diagonal elements of the '
     'three kinds of terms the function reads (expectation_terms_sound); the summation over the dictionary is not',
